@@ -53,6 +53,11 @@ Theorem C12_api_outsider_refused : forall s signer o,
 Proof. exact outsider_refused. Qed.
 Print Assumptions C12_api_outsider_refused.
 
+(** InitializeRoot on a repository that already has a root of trust is refused for every caller. *)
+Theorem C12_api_reinit_refused : forall s signer, api_step s signer RInit = (Some EReinit, s).
+Proof. exact reinit_refused. Qed.
+Print Assumptions C12_api_reinit_refused.
+
 (** For every sequence of AddRootKey / RemoveRootKey / UpdateRootThreshold / SignRoot calls by any
     signers, interleaved with Apply, on a repository whose first state verifies: the published
     states chain from the first one (each a valid successor of the one before) and the applied one
